@@ -30,6 +30,13 @@ CLASSES = {
         "patch": "fixes/C09-4-unroller-count-overflow.patch", "probe": ["fix_unroll"]},
 }
 EXPO_CLASS = "C09-validator-exponential"
+# what the runner appends to a slow observation when the extracted model of the UNMODIFIED front end is cheap on the text (few validator
+# steps, whole model answers at once): the text is then outside the registered exponential class and the slowness is judged
+OUTSIDE_EXPO = "outside C09-validator-exponential"
+
+
+def is_slow(m):
+    return "took " in m["impl"] or "no answer" in m["impl"]
 EXPO_WHAT = ("validate_ast (is_non_failing / is_non_progressing / left_recursion::check_expr) and the skipper's populate_choices re-traverse every rule "
              "they reach, nothing is remembered: on a1 = { a2 ~ a2 } a2 = { a3 ~ a3 } .. an = { \"\" } (also with `|`, and for `@{ (!a1 ~ ANY)* }`) "
              "the time doubles with every rule (Coq: validator_steps_exponential, C09_steps_refuted). No small memoisation is safe: the results depend "
@@ -61,6 +68,10 @@ META = {
             "follows the tree: the harness probes which repairs (C09's and those of C06 / C07 that touch modelled functions) are present. When "
             "implementation and model disagree, an escalated search derives texts from the disagreeing ones (slices, first-position skeletons, added "
             "skip-until rules and callers, mutants) and evaluates the property on the real code for them (coverage.escalated_search)."
+            " Ladders (chains of up to 40 rules, every rule mentioning the next one two or three times through every operator, used from the places where the "
+            "validator and optimizer passes ask their questions, with and without stack operators) run in guarded workers under the time limit; whether a slow "
+            "ladder belongs to the registered exponential class is decided by the extracted step-counting model of the unmodified front end (few steps and a "
+            "slow real front end = violation), which also replaces the size rule for slow texts of the escalated search."
             " Generated grammars include rule-reference cycles through every first-position operator, entered from rules sorting before/between/after the members, with skip-until rules over them; when the real front end accepts what the model rejects, grammars derived from the disagreeing text (skip-until rules and callers around the suspect rules) are run in guarded worker processes and an abort, panic or hang is the replay.",
     "note": "Trusted: Coq kernel; extraction (ExtrOcamlBasic only); harness/runner; the meta-parser itself is outside the model (its output forest is the "
             "model's input: shape checked dynamically, provable from C01/C14/C04); str/char/Vec/HashMap/number-parsing semantics by documented meaning; "
@@ -95,7 +106,9 @@ def model_flags(vals, extras, tag_state=False):
 
 def plan(tier, seed, repo):
     if tier == "quick":
-        cmds = ["fixed"] + ["ship %s %d 120 60 %d 8" % (shlex.quote(repo), seed, k) for k in range(8)]
+        # ladders: each process stops after 3 ladders that were slow (seconds each; on the unchanged tree those are the registered exponential class)
+        cmds = ["lad %d 40 3 40" % (seed * 100 + i) for i in range(4)]
+        cmds += ["fixed"] + ["ship %s %d 120 60 %d 8" % (shlex.quote(repo), seed, k) for k in range(8)]
         cmds += ["rnd %d 4000" % (seed * 100 + i) for i in range(3)] + ["gen %d 350" % (seed * 100 + i) for i in range(2)]
         cmds += ["cyc %d 1500" % (seed * 100 + i) for i in range(2)]
         cmds += ["deep 0 50 100 200 300", "deep 1 50 100 200 300"]
@@ -105,6 +118,7 @@ def plan(tier, seed, repo):
         cmds = ["fixed big"] + ["ship %s %d 1500 600 %d 16 all" % (shlex.quote(repo), seed, k) for k in range(16)]
         cmds += ["rnd %d 60000" % (seed * 100 + i) for i in range(8)] + ["gen %d 4000" % (seed * 100 + i) for i in range(6)]
         cmds += ["cyc %d 20000" % (seed * 100 + i) for i in range(6)]
+        cmds += ["lad %d 400 40 40" % (seed * 100 + i) for i in range(8)]
         cmds += ["deep 0 50 100 200 300 500 1000", "deep 1 50 100 200 300 500 1000"]
         expo = "expo 10 24 seq cho skip"
         scale = "scale 50 100 200 400 800"
@@ -307,9 +321,10 @@ def run(tier, seed, replay=None):
             em += em2
             for k, v in st2.items():
                 esc_stats[k] = esc_stats.get(k, 0) + v if isinstance(v, int) else v
-        # a derived text that is merely slow and has many rules may be the registered exponential class: counted, not judged here
+        # a derived text that is merely slow and has many rules may be the registered exponential class: the runner asked the model of the
+        # unmodified front end; judged when the model is cheap on it (the class is defined by the algorithm, not by the size), else counted
         for m in em:
-            if m["kind"] == "spec" and ("took " in m["impl"] or "no answer" in m["impl"]) and rule_count(case_text(m["case"])) > 16:
+            if m["kind"] == "spec" and is_slow(m) and rule_count(case_text(m["case"])) > 16 and OUTSIDE_EXPO not in m["impl"]:
                 esc_slow.append(m)
             else:
                 mism.append(m)
@@ -317,10 +332,10 @@ def run(tier, seed, replay=None):
                     esc_found.append(m)
         log("C09: escalated search from %d disagreeing texts: %d derived evaluations, %d failing observations%s" % (
             esc_stats.get("escalated_from_texts", 0), esc_stats.get("evaluations", 0), len(esc_found),
-            " (%d slow many-rule texts left to the exponential-class measurement)" % len(esc_slow) if esc_slow else ""))
+            " (%d slow many-rule texts on which the model of the unmodified front end is slow too: left to the exponential-class measurement)" % len(esc_slow) if esc_slow else ""))
 
     # ---- classify
-    by_class, other_spec, expo_spec = {}, [], []
+    by_class, other_spec, expo_spec, lad_known, lad_found = {}, [], [], [], []
     for m in mism:
         if m["kind"] != "spec":
             continue
@@ -328,6 +343,11 @@ def run(tier, seed, replay=None):
         cls = classify(m["impl"], case_text(m["case"]))
         if kind.startswith("expo-") and ("took " in m["impl"] or "no answer" in m["impl"]):
             expo_spec.append(m)
+        elif kind == "lad" and (is_slow(m) or "worker process died" in m["impl"]) and OUTSIDE_EXPO not in m["impl"]:
+            lad_known.append(m)   # slow where the model of the unmodified algorithm is slow too: the registered class (or undecided), not judged
+        elif kind == "lad" and OUTSIDE_EXPO in m["impl"]:
+            lad_found.append(m)
+            other_spec.append(m)
         elif kind.startswith("scale-") and ("took " in m["impl"] or "no answer" in m["impl"]):
             pass   # polynomial (cubic) growth on long chains: measured (#SCALE rows in the evidence), not judged
         elif cls:
@@ -346,7 +366,11 @@ def run(tier, seed, replay=None):
                       "repair: %s" % (cls, d["what"], text[:200], worst["impl"][:160], len(ms), d["patch"]),
                       {"theorem_or_correspondence": "C09 oracle (never panics) + C09_refuted_witnesses", "class": cls, "text": text, "witness": d["witness"],
                        "impl": worst["impl"], "cases_in_class": len(ms), "suggested_fix": d["patch"]})
-    for m in sorted(other_spec, key=lambda m: len(m["case"]))[:5]:
+    def margin(m):
+        """slow observations with a wide margin over the limit first: their replay does not depend on the load of the machine"""
+        t = re.search(r"took (\d+) ms", m["impl"])
+        return 1 if (t and int(t.group(1)) < 1.5 * 2000) else 0
+    for m in sorted(other_spec, key=lambda m: (margin(m), len(m["case"])))[:5]:
         res.violation("property violated outside the known classes: %s on `%s`" % (m["impl"][:300], case_text(m["case"])[:200]),
                       {"theorem_or_correspondence": "C09 oracle", "text": case_text(m["case"]), "impl": m["impl"]})
 
@@ -430,16 +454,30 @@ def run(tier, seed, replay=None):
         "exponential_growth": growth,
         "polynomial_scaling_ms": scale_rows,
         "panic_classes_found": {k: len(v) for k, v in by_class.items()},
+        "ladders": {"ladders": stats.get("ladders", 0), "evaluations": stats.get("kind_lad", 0), "slow_or_killed": stats.get("ladders_slow", 0),
+                    "slow_judged_outside_known_class": stats.get("slow_judged_outside_known_class", 0), "failing_observations": len(lad_found),
+                    "slow_left_to_known_class": stats.get("slow_left_to_known_class", 0), "model_comparisons_given_up": stats.get("ladder_model_unfinished", 0),
+                    "processes_stopped_early": stats.get("ladders_stopped_early", 0),
+                    "rule": "chains s1 .. sn (n = 8, 14, 20, 28, 40; deepened only while the answer comes in time, the depth jumps to where the extrapolated "
+                            "time passes the limit once the time multiplies per rule) in which every rule mentions the next one 2 or 3 times through one "
+                            "of 22 links (sequence with / without separators, choice, choice inside sequence, optional, `*`, `+`, counts, `&`, `!`, PUSH, "
+                            "PUSH .. POP) or two alternating links; 12 leaves (failing, non-failing, non-progressing, stack); used from 20 places (under "
+                            "`*` `+` `?` `{2,}`, first / last choice alternative, first / second in a sequence, inside repeated sequences and choices, "
+                            "under `!` `&` PUSH, as WHITESPACE / COMMENT, inside atomic skip-until rules, or alone); modifiers, rule order, DROP half-way; "
+                            "every link once with a literal leaf first, then random combinations; each process stops after a few slow ladders. "
+                            "A slow / killed ladder is judged by the extracted model of the unmodified front end on the same token forest: "
+                            "<= 10^5 validator steps and an answer of the whole model within 0.5 s = outside C09-validator-exponential = violation; "
+                            "otherwise left to the registered class (counted)"},
         "escalated_search": ({"ran": True, "from_disagreeing_texts": esc_stats.get("escalated_from_texts", 0), "derived_evaluations": esc_stats.get("evaluations", 0),
                               "kinds": {k: v for k, v in esc_stats.items() if str(k).startswith("kind_")},
                               "classes": {k: v for k, v in esc_stats.items() if str(k).startswith("class_")},
-                              "failing_observations": len(esc_found), "slow_many_rule_texts_not_judged": len(esc_slow),
+                              "failing_observations": len(esc_found), "slow_many_rule_texts_left_to_known_class_by_the_model": len(esc_slow),
                               "stopped_early": esc_stats.get("escalated_stopped_early", 0),
                               "rule": "per disagreeing text: the rules at the locations the two sides disagree on, what they refer to, then other rules (at most "
                                       "10); for each the slice of the text it reaches, the first-position skeleton of that slice (references, choices, strings) "
                                       "and the whole text, each extended by atomic skip-until rules over it, callers with it in first position / under every "
                                       "repetition and predicate named to sort first and last, both, WHITESPACE / COMMENT; then token mutants and byte damage; "
-                                      "oracle = the property on the real code in a worker (panic, abort, no answer in 6 s, > 2 s, unlocated / unrenderable error)"}
+                                      "oracle = the property on the real code in a worker (panic, abort, no answer in 6 s, > 2 s, unlocated / unrenderable error); a slow text with more than 16 rules is judged when the extracted model of the unmodified front end is cheap on it"}
                              if first_model else {"ran": False, "why": "implementation and model agreed on every case"}),
     })
     res.assumptions = ["the token forest of the meta-parser has the shape of grammar.pest (assumed by the theorems, checked on every real parse of the run)",
